@@ -464,7 +464,7 @@ def rule_G(ctx):
                     res = run(t, eps)
                 except orders.Unsupported as ex:
                     raise shape_error('%s not interpretable: %s' % (algo, ex), f.loc())
-                except (ZeroDivisionError, IndexError, KeyError, TypeError, AttributeError, ValueError, orders.Raised, RecursionError) as ex:
+                except orders.PROGRAM_ERRORS as ex:
                     found.setdefault((algo, 'fails'), (f, 'does not fail on repeated / coincident positions, closed loops included',
                                                        dict(case, exception='%s: %s' % (type(ex).__name__, str(ex)[:160]))))
                     continue
@@ -527,7 +527,7 @@ def rule_D(ctx):
                 n += 1
                 try:
                     got = run(qx, qy, ax, ay, bx, by)
-                except (ZeroDivisionError, ValueError, TypeError, IndexError, orders.Raised) as ex:
+                except orders.PROGRAM_ERRORS as ex:
                     got = '%s: %s' % (type(ex).__name__, ex)
                 slack = 64 * math.ulp(max(1.0, abs(ax), abs(ay)))
                 if not isinstance(got, (int, float)) or isinstance(got, bool) or abs(got - want) > 1e-9 * max(1.0, want) + slack:
